@@ -1258,17 +1258,19 @@ class Stack(list):
 
         :return bool:
         """
-        # TODO: Implement
-        # if sequence == 0xffffffff:
-        #     return False
-        # locktime = decode_num(self[-1])
-        # if locktime < 0:
-        #     return False
-        # if locktime != 0xffffffff:
-        #     if version < 2:
-        #         return False
-        # return True
-        return NotImplementedError
+        if len(self[-1]) > 5:
+            return False
+        locktime = decode_num(self[-1])
+        if locktime < 0:
+            return False
+        if locktime & SEQUENCE_LOCKTIME_DISABLE_FLAG:
+            return True
+        if version < 2 or sequence & SEQUENCE_LOCKTIME_DISABLE_FLAG:
+            return False
+        mask = SEQUENCE_LOCKTIME_TYPE_FLAG | SEQUENCE_LOCKTIME_MASK
+        if (locktime & mask < SEQUENCE_LOCKTIME_TYPE_FLAG) != (sequence & mask < SEQUENCE_LOCKTIME_TYPE_FLAG):
+            return False
+        return locktime & mask <= sequence & mask
 
     def op_nop4(self):
         return True
